@@ -33,7 +33,17 @@ ASSUMPTIONS = [
     "order of rows with equal onset and pitch is not compared; float32 columns within 4 ulp of the exact value",
     "inverse direction: default options, divs given for division-only arrays; arrays with negative beat onsets are "
     "compared up to a common shift of the beat onsets; ids and voices of the rebuilt score are not compared",
-    "rest arrays: the dummy spelling columns are not compared; collapse=True is outside the statement",
+    "inverse direction, generator preconditions: every zero-duration row (grace note) has a row of positive duration at "
+    "the same or a later onset; division columns are consistent with the beat columns (onset_div = onset_beat x divs)",
+    "rest arrays: the dummy spelling columns are not compared; collapse=True is outside the statement; rest arrays of "
+    "lists / groups are checked for parts with equal divisions only (no rescaling is stated for them), a one-element "
+    "list may or may not prefix its ids",
+    "generator preconditions for the metrical columns: requested only for parts with measures and notated beats; a time "
+    "signature, when present, starts at the first time point (no stretch before the first signature inside a measure grid)",
+    "musical beats (part-musical): the beat columns follow Part.beat_map with use_musical_beat in force, "
+    "ts_mus_beats is the number given to use_musical_beat or the default (6->2, 9->3, 12->4)",
+    "notes without id, unpitched notes, tie chains with gaps, grace notes inside tie chains and two signatures at one "
+    "time are not generated",
 ]
 CHUNK = 40
 
@@ -330,8 +340,17 @@ def eval_part(case):
     if not ok:
         res.outcome = "build-failed"
         return res
-    ref = R.PartRef(spec)
-    if sp in ("part-single", "part-pairs", "part-decor", "part-triples"):
+    ref = R.PartRef(spec, musical=case.get("mus"))
+    if sp == "part-musical":
+        # musical beats in force: beat columns follow the musical beat map (metrical position is not
+        # requested: its pickup detection under musical beats belongs to the measure maps)
+        ok, _ = call(res, "part-built", lambda: part.use_musical_beat(dict(case["mus"])), ctx)
+        if not ok:
+            return res
+        fl_all = [f for f in G.NOTE_FLAGS if f != "include_metrical_position" and (len(ref.divs) == 1 or f != "include_divs_per_quarter")]
+        ctx += " musical=%s" % (case["mus"],)
+        eval_part_arrays(res, part, ref, frame, [[], fl_all, ["include_time_signature"]], ctx, via="method")
+    elif sp in ("part-single", "part-pairs", "part-decor", "part-triples"):
         basic = G.basic_configs(G.NOTE_FLAGS)
         if sp in ("part-pairs", "part-triples"):
             # every single option is exercised on every frame and event by part-single; interactions of
@@ -644,6 +663,20 @@ def gen_part_decor():
             yield dict(sp="part-decor", frame=fk, ev=sk, deco=[dict(p=list(p), v=None if k == 1 else 1, st=None, gt="appoggiatura") for k, p in enumerate(ps)])
 
 
+def gen_part_musical():
+    for fk in G.frame_keys():
+        if fk[0] not in ("68pk", "24-68", "34") or fk[2] != "one":
+            continue
+        fr = G.get_frame(fk)
+        evs = G.note_events(fr)
+        for mus in ({}, {"6/8": 3}, {"3/4": 1, "2/4": 1}):
+            if mus and not any(k.split("/")[0] in ("%d" % o["beats"]) and int(k.split("/")[1]) == o["beat_type"] for k in mus for o in fr["objs"] if o["k"] == "ts"):
+                continue
+            for e in evs:
+                yield dict(sp="part-musical", frame=fk, ev=[e], mus=mus)
+            yield dict(sp="part-musical", frame=fk, ev=[evs[0], evs[-1], evs[len(evs) // 2]], mus=mus)
+
+
 def gen_part_flags():
     for fk in FLAG_FRAMES:
         fr = G.get_frame(fk)
@@ -685,6 +718,17 @@ def gen_rest_flags():
         ev = [["r", 1, 2], ["r", 0, 1], ["n", 0, 1], ["r", n - 2, n - 1]]
         for fl in G.all_subsets(G.REST_FLAGS):
             yield dict(sp="rest-flags", frame=fk, ev=ev, flags=fl)
+
+
+def gen_score1():
+    # one part: the most common use (ids are never prefixed)
+    for q in (1, 2, 3, 4, 6):
+        for c in range(len(G.CONTENTS)):
+            if q % G.CONTENTS[c]["need"]:
+                continue
+            for meter in ("34", "34pk"):
+                for st in G.STRUCTS2:
+                    yield dict(sp="score1", q=[q], c=[c], meter=meter, struct=st)
 
 
 def gen_score2():
@@ -772,6 +816,9 @@ def spaces(tier, seed):
     out.append(Space("part-decor", gen_part_decor, True,
                      "3 skeletons (chord, grace+main+later, chain over the pickup barline + overlap) x all voice^3 (4 values), "
                      "staff^3 (3 values), spelling^3 (6 spellings) assignments"))
+    out.append(Space("part-musical", gen_part_musical, True,
+                     "musical beats enabled (defaults, 6/8 in 3, 3/4 and 2/4 in 1) on the 3/4, 2/4-6/8 and 6/8-pickup frames with one key "
+                     "signature x every division plan x every single event (+ one triple)"))
     out.append(Space("part-flags", gen_part_flags, True,
                      "all 2^7 subsets of the include_* options on %d representative parts, through Part.note_array and ensure_notearray" % (2 * len(FLAG_FRAMES))))
     out.append(Space("rest-single", gen_rest_single, True, "every single rest (<=2 grid cells) on every frame with a key signature at 0; 8 option sets"))
@@ -781,6 +828,7 @@ def spaces(tier, seed):
     else:
         out.append(Space("rest-pairs", lambda: gen_rest_pairs(None), True, "ordered pairs rest x (rest | one-cell note) on those frames"))
     out.append(Space("rest-flags", gen_rest_flags, True, "all 2^6 subsets of the rest options on 5 representative parts"))
+    out.append(Space("score1", gen_score1, True, "1 part as Score / list / Score of a group / PartGroup: divisions {1,2,3,4,6} x contents x pickup"))
     out.append(Space("score2", gen_score2, True,
                      "2 parts: divisions %s x contents^2 (%d contents) x {no pickup, pickup} x structures %s; "
                      "unique ids on/off x {no, all} options + each option" % (G.DIVS2, len(G.CONTENTS), G.STRUCTS2)))
@@ -805,7 +853,19 @@ def spaces(tier, seed):
     return out
 
 
-TRIGGERS = {}
+def _grace_group_without_voice_column(case, v):
+    """inverse direction, no voice column (voices are estimated), and at least two zero-duration rows
+    share an onset at which no row has a positive duration: the voice estimator makes each of them the
+    main note of the other and recurses without end"""
+    if not str(case.get("sp", "")).startswith("inverse") or case.get("voice"):
+        return False
+    by = {}
+    for o, d, _p in case["rows"]:
+        by.setdefault(frac(o), []).append(frac(d))
+    return any(sum(1 for d in ds if d == 0) >= 2 and not any(d > 0 for d in ds) for ds in by.values())
+
+
+TRIGGERS = {"grace_group_without_voice_column": _grace_group_without_voice_column}
 
 
 if __name__ == "__main__":
